@@ -119,6 +119,42 @@ def gen_scenarios(seed_, n, own_hb=0):
     return res
 
 
+def tlc_scenarios(work, n, depth, seed_):
+    """Behaviours of the model itself (Gen_P2PLoop under tlc -simulate), mapped to harness steps."""
+    cfg = open(os.path.join(vlib.SPEC, "Gen_P2PLoop.cfg")).read().replace("GenDepth = 12", "GenDepth = %d" % depth)
+    sdir = os.path.join(work, "spec")
+    if not os.path.isdir(sdir):
+        shutil.copytree(vlib.SPEC, sdir)
+    name = "Gen_P2PLoop_%d.cfg" % seed_
+    open(os.path.join(sdir, name), "w").write(cfg)
+    r = vlib.tlc(work, "Gen_P2PLoop", name, workers=1, args=["-simulate", "num=%d" % n, "-depth", str(depth + 2), "-seed", str(seed_)], timeout=600)
+    hs = vlib.tlc_prints(r["out"], "SCN")
+    if not hs:
+        raise vlib.Broken("TLC simulation produced no p2p loop scenarios:\n" + r["out"][-2000:])
+    res = []
+    for h in hs:
+        steps = [{"ev": "Config", "a": {"self": "g1", "own_hb": False}}]
+        gs = None
+        for st in h:
+            if st["ev"] == "GSetUpdate":
+                gs = st["a"]["set"]
+                steps.append(st)
+            elif st["ev"] == "LocalReq":
+                steps.append({"ev": "LocalReq", "a": {"req": st["a"]["req"], "txlen": 32}})
+            else:
+                m = st["a"]["m"]
+                e = m.get("e") or {"kind": "none"}
+                if e.get("kind") in ("hb", "req"):
+                    e = dict(e)
+                    e["short"] = PREFIX[e["kind"]] + e["plen"] < FLOOR
+                    e["peer"] = m["from"]
+                    steps.append(recv(m["from"], m["kind"], gs, tag="m", decodes=m["decodes"], e=e))
+                else:
+                    steps.append(recv(m["from"], m["kind"], gs, tag=m.get("tag") or "m", decodes=m["decodes"]))
+        res.append({"steps": steps, "src": "tlc-p2ploop"})
+    return res
+
+
 def replay(work, scenarios):
     scp = os.path.join(work, "scenarios_l.ndjson")
     trp = os.path.join(work, "trace_l.ndjson")
